@@ -21,11 +21,16 @@ class Machinery(Exception):
 
 
 def load_findings():
-    try:
-        with open(FINDINGS) as f:
-            return json.load(f)['findings']
-    except FileNotFoundError:
-        return []
+    """known_findings.json plus known_findings.d/*.json (one file per property, same format)."""
+    import glob
+    out = []
+    for path in [FINDINGS] + sorted(glob.glob(os.path.join(VERIF, 'known_findings.d', '*.json'))):
+        try:
+            with open(path) as f:
+                out += json.load(f).get('findings', [])
+        except FileNotFoundError:
+            pass
+    return out
 
 
 class Ctx:
